@@ -38,6 +38,8 @@ type ProgResult struct {
 	GenExit    int
 	Stats      map[string]int
 	CheckDiags []Diag
+	ShowRan    bool
+	ShowDiags  []Diag
 	CheckExit  int
 	CheckRan   bool
 }
@@ -54,6 +56,7 @@ type PoolOpts struct {
 	KeepGoing bool
 	ExtraEnv  []string
 	AlsoCheck bool // also run `wire check ./...` on every batch
+	AlsoShow  bool // also run `wire show ./...` on every batch (diagnostics only)
 	NoGen     bool // only run check
 }
 
@@ -123,6 +126,21 @@ func runBatch(e *Env, name string, progs []*Program, results []*ProgResult, idx 
 			for i := range p.Pkgs {
 				if o := b.CheckOut[p.ImportPath(i)]; o != nil {
 					pr.CheckDiags = append(pr.CheckDiags, o.Diags...)
+				}
+			}
+		}
+	}
+	if opts.AlsoShow {
+		sres := b.E.Wire(b.Root, opts.ExtraEnv, "show", "./...")
+		if !sres.TimedOut && !sres.Crashed() && !strings.Contains(sres.Stderr, "VERIF-STEP-CAP") {
+			sout := GenOutcomes(sres, b.DirOf())
+			for _, p := range b.Progs {
+				pr := results[idx[p.ID]]
+				pr.ShowRan = true
+				for i := range p.Pkgs {
+					if o := sout[p.ImportPath(i)]; o != nil {
+						pr.ShowDiags = append(pr.ShowDiags, o.Diags...)
+					}
 				}
 			}
 		}
